@@ -689,6 +689,14 @@ func totalAdversary(f Fields) (dec string, b []byte) {
 			return "", nil
 		}
 		return "cff", totalT2OpCase(f["op"], num("n", 0), params, f["sub"] == "1")
+	case "gpos22-classes": // GPOS 2.2, both value formats 0 (records take no bytes), class1Count x class2Count
+		st := []byte{0, 2, 0, 16, 0, 0, 0, 0, 0, 22, 0, 28}
+		st = append(st, totalBe16b(num("c1", 2))...)
+		st = append(st, totalBe16b(num("c2", 2))...)
+		st = append(st, 0, 1, 0, 1, 0, 5) // coverage: glyph 5
+		st = append(st, 0, 1, 0, 0, 0, 0) // class definition 1: format 1, no glyphs
+		st = append(st, 0, 1, 0, 0, 0, 0) // class definition 2
+		return "gpos", totalGtabWrap(2, st)
 	case "chain3-alias":
 		return "gsub", totalChain3Aliased(num("k", 2))
 	case "t2-nested-gsubrs": // §9 #26
@@ -3223,6 +3231,10 @@ func areaTotal(c *Ctx) {
 	adv("kind=gpos21-alias k=20 acc=0")
 	adv("kind=chain3-alias k=1 acc=0")
 	adv("kind=gpos51-alias n=1 acc=0")
+	// GPOS 2.2 class-count products at and over the 65536-record cap (16-bit wrap of the product)
+	for _, cc := range [][2]int{{1, 1}, {2, 3}, {255, 257}, {256, 256}, {512, 128}, {128, 512}, {300, 300}, {65535, 65535}, {65535, 1}, {1, 65535}, {65536 / 4, 4}, {0, 0}, {0, 65535}, {257, 255}, {4096, 16}, {16, 4097}} {
+		adv(fmt.Sprintf("kind=gpos22-classes c1=%d c2=%d", cc[0], cc[1]))
+	}
 	adv("kind=gdef-alias sets=20 acc=0")
 	adv("kind=gdef-alias sets=2000 acc=0")
 	adv("kind=gdef-distinct sets=2")
